@@ -314,3 +314,75 @@ Proof.
   rewrite app_assoc. rewrite updZ_app_at by (rewrite zlen_app; change (zlen [Z.land x (rmask8 (Z.land (8 - t) 7))]) with 1; lia).
   now rewrite <- app_assoc.
 Qed.
+
+(** * the bit string of a range, and its encoding, on explicit shapes *)
+Lemma B_shape s0 mid x s2 f t k :
+  f / 8 = zlen s0 -> (0 < k <= 8)%nat -> t = 8 * zlen s0 + 8 * zlen mid + Z.of_nat k ->
+  B (s0 ++ mid ++ x :: s2) f t = msb_bits mid ++ firstn k (byte_bits x).
+Proof.
+  intros Hf Hk ->. unfold B. rewrite Hf.
+  replace (Z.to_nat (8 * zlen s0)) with (8 * length s0)%nat by (unfold zlen; lia).
+  replace (Z.to_nat (8 * zlen s0 + 8 * zlen mid + Z.of_nat k - 8 * zlen s0)) with (8 * length mid + k)%nat
+    by (unfold zlen; lia).
+  rewrite !msb_bits_app, msb_bits_cons.
+  rewrite skipn_app, msb_bits_length, Nat.sub_diag.
+  rewrite skipn_all2 by (rewrite msb_bits_length; lia). cbn [app skipn].
+  rewrite firstn_app, msb_bits_length.
+  rewrite (firstn_all2 (msb_bits mid)) by (rewrite msb_bits_length; lia).
+  f_equal. replace (8 * length mid + k - 8 * length mid)%nat with k by lia.
+  rewrite firstn_app, byte_bits_length. replace (k - 8)%nat with 0%nat by lia.
+  now rewrite firstn_O, app_nil_r.
+Qed.
+
+Lemma padn_add_mult j n : padn (8 * j + n) = padn n.
+Proof.
+  induction j as [|j IH]; [reflexivity|].
+  replace (8 * S j + n)%nat with (8 + (8 * j + n))%nat by lia. now rewrite padn_add8.
+Qed.
+
+Lemma encB_shape mid x k : bytes_ok mid -> byte_ok x -> (0 < k <= 8)%nat ->
+  encB (msb_bits mid ++ firstn k (byte_bits x)) =
+  mid ++ [Z.land x (256 - 2 ^ (8 - Z.of_nat k)); 256 - 2 ^ (8 - Z.of_nat k)].
+Proof.
+  intros Hm Hx Hk.
+  assert (Lk : length (firstn k (byte_bits x)) = k) by (rewrite firstn_length, byte_bits_length; lia).
+  unfold encB. rewrite pack_msb_bits_app by exact Hm.
+  rewrite pack_short by lia. rewrite Lk.
+  rewrite mask_eq, app_length, msb_bits_length, Lk, padn_add_mult, padn_small by lia.
+  rewrite <- land_high_mask by assumption.
+  replace (Z.of_nat (8 - k)) with (8 - Z.of_nat k) by lia.
+  rewrite <- app_assoc. reflexivity.
+Qed.
+
+(** * New = canonical encoding of the bit string of the range *)
+Lemma New_encB s f t : bytes_ok s -> 0 <= f <= t -> t <= 8 * zlen s ->
+  New s f t = Some (encB (B s f t)).
+Proof.
+  intros Hs H Ht.
+  destruct ((f =? t) && (Z.land f 7 =? 0)) eqn:Hc.
+  - unfold New. rewrite Hc. f_equal.
+    apply andb_prop in Hc as [E1 E2]. apply Z.eqb_eq in E1, E2. subst t.
+    change 7 with (Z.ones 3) in E2. rewrite Z.land_ones in E2 by lia. change (2 ^ 3) with 8 in E2.
+    unfold B. replace (f - 8 * (f / 8)) with 0 by (Z.div_mod_to_equations; lia). reflexivity.
+  - destruct (new_arith f t ltac:(lia) Hc) as (Efb & Hfb & Hk & Em & Htb).
+    set (fb := Z.shiftr f 3) in *. set (tb := Z.shiftr (t + 7) 3) in *.
+    set (k := t - 8 * (tb - 1)) in *.
+    assert (Htb' : tb <= zlen s) by lia.
+    (* cut s at fb and at tb - 1 *)
+    set (s0 := firstn (Z.to_nat fb) s). set (rest := skipn (Z.to_nat fb) s).
+    assert (Es : s = s0 ++ rest) by (symmetry; apply firstn_skipn).
+    assert (L0 : zlen s0 = fb) by (unfold s0, zlen in *; rewrite firstn_length; lia).
+    assert (Lr : (Z.to_nat (tb - fb - 1) < length rest)%nat)
+      by (unfold rest; rewrite skipn_length; unfold zlen in *; lia).
+    destruct (split_at rest _ Lr) as (mid & x & s2 & Er & Lmid).
+    assert (Lm : zlen mid = tb - fb - 1) by (unfold zlen; lia).
+    rewrite Es, Er in Hs. apply Forall_app in Hs as [_ Hs]. apply Forall_app in Hs as [Hmid Hs].
+    inversion Hs as [|? ? Hx _]; subst x0 l.
+    rewrite Es, Er.
+    rewrite New_shape by (fold fb tb; lia || exact Hc).
+    fold tb k. rewrite Em. rewrite rmask8_eq by lia.
+    rewrite (B_shape s0 mid x s2 f t (Z.to_nat k)) by lia.
+    rewrite encB_shape by (assumption || lia).
+    replace (Z.of_nat (Z.to_nat k)) with k by lia.
+    replace (8 - (8 - k)) with k by lia. reflexivity.
+Qed.
